@@ -38,7 +38,7 @@ extern int mpt_values_file(FILE *fd, long len, long ld, double *data)
 			if ((fscanf(fd, "%*[^\n]") < 0) && (i+1 < len)) {
 				return -((i+1)*ld);
 			}
-			++data;
+			if (data) ++data;
 		}
 	}
 	/* read aligned rows */
@@ -52,7 +52,7 @@ extern int mpt_values_file(FILE *fd, long len, long ld, double *data)
 			if ((fscanf(fd, "%*[^\n]") < 0) && (i+1 < len)) {
 				return -((i+1)*ld);
 			}
-			data += ld;
+			if (data) data += ld;
 		}
 	}
 	return 0;
